@@ -32,6 +32,14 @@ def gen(rnd, n_projects, schedules):
                         "project": proj, "mem": mem,
                         "driver": {"kind": "logix", "path": "10.5.5.%d" % (i % 250 + 1), "route": [] if micro else [S.port_seg("bp", 0)],
                                    "init_program_tags": allp}, "calls": calls, "budget": 2000000})
+    # a page of the symbol list refused by the controller (busy): the upload fails or is repeated, never returns a partial list
+    for j in range(max(4, n_projects // 3)):
+        sc = copy.deepcopy(scs[(j * 3 + 1) % len(scs)])
+        sc["id"] = "uprf%d" % j
+        sc["family"] += "-page-refused"
+        sc["target"]["pages"] = [rnd.choice([1, 2, 3]) for _ in range(300)]
+        sc["target"]["pagefail"] = {str(rnd.choice([1, 2, 2, 3, 4, 6])): rnd.choice([2, 5, 8, 0x10])}
+        scs.append(sc)
     return scs
 
 
